@@ -26,7 +26,10 @@ use crate::mqtt::packet::GenericStorePacket;
 use crate::mqtt::packet::IsPacketId;
 use crate::mqtt::packet::ResponsePacket;
 use crate::mqtt::result_code::MqttError;
+#[cfg(not(feature = "verif-models"))]
 use alloc::vec::Vec;
+#[cfg(feature = "verif-models")]
+use crate::mqtt::common::verif_model::Vec;
 
 /// A store that holds packets in insertion order and allows O(1) insert/remove by id.
 pub struct GenericStore<PacketIdType: IsPacketId> {
